@@ -549,8 +549,11 @@ func runStoreTTLChain(c *Ctx, rule string) {
 	if expireF == nil {
 		return
 	}
+	var ttlLinkFn func(fn *ssa.Function, fnName string, match func(cc *ssa.CallCommon) bool, argIdx int, want func(v ssa.Value, fn *ssa.Function) bool, what string)
 	ttlLink := func(fnName string, match func(cc *ssa.CallCommon) bool, argIdx int, want func(v ssa.Value, fn *ssa.Function) bool, what string) {
-		fn := c.Fn(rule, fnName)
+		ttlLinkFn(c.Fn(rule, fnName), fnName, match, argIdx, want, what)
+	}
+	ttlLinkFn = func(fn *ssa.Function, fnName string, match func(cc *ssa.CallCommon) bool, argIdx int, want func(v ssa.Value, fn *ssa.Function) bool, what string) {
 		if fn == nil {
 			return
 		}
@@ -582,9 +585,11 @@ func runStoreTTLChain(c *Ctx, rule string) {
 		pa, ok := cc.Value.(*ssa.Parameter)
 		return ok && !cc.IsInvoke() && pa.Name() == "saver"
 	}, 2, func(v ssa.Value, _ *ssa.Function) bool { return isFieldLoadOf(v, expireF) }, "saver(id, ciphertext, Cookie.Expire)")
-	ttlLink("(*pkg/sessions/persistence.Manager).Save$1", func(cc *ssa.CallCommon) bool {
+	// the saver Manager.Save hands to ticket.saveSession: a closure or a bound method; its expiration is its last parameter
+	saver := c.funcHandedTo(rule, c.Fn(rule, "(*pkg/sessions/persistence.Manager).Save"), c.Fn(rule, "(*pkg/sessions/persistence.ticket).saveSession"))
+	ttlLinkFn(saver, "the saver of Manager.Save", func(cc *ssa.CallCommon) bool {
 		return cc.IsInvoke() && cc.Method.Name() == "Save"
-	}, 3, paramN(2), "Store.Save(ctx, key, val, exp)")
+	}, 3, func(v ssa.Value, fn *ssa.Function) bool { return len(fn.Params) > 0 && v == fn.Params[len(fn.Params)-1] }, "Store.Save(ctx, key, val, exp)")
 	ttlLink("(*pkg/sessions/redis.SessionStore).Save", func(cc *ssa.CallCommon) bool {
 		return cc.IsInvoke() && cc.Method.Name() == "Set"
 	}, 3, paramN(4), "Client.Set(ctx, key, value, exp)")
@@ -821,7 +826,7 @@ func runValidateWindowRule(c *Ctx, rule string) {
 			if !ok || !isStd(&atoi.Call, "strconv", "Atoi") {
 				return false
 			}
-			idx, ok := indexLoad(p.Resolve(p.Op(atoi.Call.Args[0], atr)).V)
+			idx, ok := barPart(p.Resolve(p.Op(atoi.Call.Args[0], atr)).V)
 			return ok && idx == 1
 		}
 		if !tOK(p.Recv(*after)) || !tOK(p.Recv(*before)) {
